@@ -156,10 +156,13 @@ class Ctx:
 
     # ---- build of the static development
     def ensure_static(self):
+        """(re)build the static development; only this property's Props file has to succeed
+        (another property's file being broken must not stop this check)."""
         lock = VERIF / "build" / ".lock"
         with open(lock, "w") as fh:
             fcntl.flock(fh, fcntl.LOCK_EX)
-            r = subprocess.run(["bash", str(VERIF / "build_coq.sh")], capture_output=True, text=True,
+            subprocess.run(["bash", str(VERIF / "build_coq.sh"), "-k"], capture_output=True, text=True, timeout=3000)
+            r = subprocess.run(["make", "-C", str(COQ), "Props/%s.vo" % self.pid], capture_output=True, text=True,
                                timeout=3000)
             fcntl.flock(fh, fcntl.LOCK_UN)
         if r.returncode != 0:
